@@ -63,7 +63,7 @@ def main():
             na.append({"property_id":pid,"reason":NOT_YET.get(pid,"explorer for this property not built yet in this round; will be claimed once its check exists")})
     m={"version":1,
        "setup_cmd":"./setup.sh",
-       "hooks":{"guard":"verif","enable":"none needed: no source hooks; instrumentation (where used) is applied with go build -overlay at check time, /repo untouched",
+       "hooks":{"guard":"verifmaporder","enable":"no source hooks in /repo. The C15 map-order leg builds a second explorer binary with `go build -tags verifmaporder -overlay <generated>`: /verif/mc/cmd/maporder type-checks /repo/v2 and rewrites every range-over-map into a hook-controlled order in an overlay directory under /verif/.work; /repo is untouched and the tag is only used by files of /verif/mc",
                 "baseline_off_cmd":BASE_OFF,"source_commits":[],"add_only":True},
        "engines":[{"name":"jdmc","path":"/verif/mc","serves_properties":sorted(CHECKS),
                    "kind_free_text":"hand-written explicit-state / bounded-exhaustive explorer in Go: deterministic complete enumeration of finite case spaces, hash-sharded over 16 worker processes, every case executed on the real library or binaries (rebuilt from /repo) and compared with reference models"}],
